@@ -183,6 +183,12 @@ let run_trie_ops (prefix : string) (v : variant) (built : trie) (ops : string li
       (match fs_save v !cur (File []) (Some (n_of_string k)) with
        | Ok (cnt, _) -> pr' "limit ret:%s size:%s load:ok" (string_of_n cnt) (string_of_n cnt)
        | r -> pr' "limit %s" (exc_or_fault r))
+    | ["LIMITT"; k] ->     (* a transient refusal is still a refused write: save must throw *)
+      (match fs_save v !cur (File []) (Some (n_of_string k)) with
+       | Ok (cnt, _) -> pr' "limitt ret:%s size:%s load:ok" (string_of_n cnt) (string_of_n cnt)
+       | r -> pr' "limitt %s" (exc_or_fault r))
+    | ["XLRO"] -> pr' "xlro %s" (exc_or_fault (load v (save v !cur)))
+    | ["SAVEBAD"; w] -> pr' "savebad %s" (exc_or_fault (fs_save v !cur (if w = "full" then File [] else NoParent) (Some N0)))
     | ["LIMITALL"] ->
       let size = List.length (bytes_of_built ()) in
       let bad = ref [] in
